@@ -65,9 +65,10 @@ def _stored_target(call):
     return None
 
 
-def kinds_acquired(fn):
+def kinds_acquired(fn, nodes=None):
     kinds = {}
-    for n in body_walk(fn):
+    nodes = list(body_walk(fn)) if nodes is None else nodes
+    for n in nodes:
         if not isinstance(n, ast.Call):
             continue
         name = call_name(n) or ""
@@ -81,7 +82,7 @@ def kinds_acquired(fn):
             if tgt:
                 kinds[f"task stored in {tgt}"] = n
     # a release closure stored as a handle: slot = lambda: <release call>  => the kind is released by calling the slot
-    for n in body_walk(fn):
+    for n in nodes:
         if isinstance(n, ast.Assign) and isinstance(n.value, ast.Lambda) and len(n.targets) == 1:
             for m in ast.walk(n.value.body):
                 if isinstance(m, ast.Call) and (call_name(m) or "") in REL and REL[call_name(m)] in kinds:
@@ -90,9 +91,9 @@ def kinds_acquired(fn):
     return kinds
 
 
-def kinds_released(fn):
+def kinds_released(fn, nodes=None):
     kinds = set()
-    for n in body_walk(fn):
+    for n in (body_walk(fn) if nodes is None else nodes):
         if not isinstance(n, ast.Call):
             continue
         name = call_name(n) or ""
@@ -115,9 +116,11 @@ def run(ctx):
         acquired = {}
         for uid in acqs:
             acquired.update({k: (uid, n) for k, n in kinds_acquired(program.func(uid)).items()})
+            # subscriptions made in a helper of the owner (an extracted `_subscribe_all`) are the owner's; tasks and handles created by what it calls are not
+            acquired.update({k: (uid, n) for k, n in kinds_acquired(program.func(uid), program.walk_with_helpers(uid)).items() if k in ACQ.values() and k not in acquired})
         released = set()
         for uid in rels:
-            released |= kinds_released(program.func(uid))
+            released |= kinds_released(program.func(uid), program.walk_with_helpers(uid))
         if not acquired:
             raise AnalysisError(f"{owner}: no acquisition recognised in {acqs} - the kind table no longer matches the code")
         for k, (uid, n) in acquired.items():
@@ -262,8 +265,21 @@ def run(ctx):
     context_stop_table(ctx, program, "R09.5")   # stop() stops every registered trigger/manager, clears all four sets, switches auto-start off
     # delete(): stop precedes removal
     f = program.func("global_ctx.py::GlobalContextMgr.delete")
-    seq = [("stop" if isinstance(n, ast.Call) and (call_name(n) or "").endswith(".stop") else "del") for n in body_walk(f)
-           if (isinstance(n, ast.Call) and (call_name(n) or "").endswith(".stop")) or isinstance(n, ast.Delete)]
+    from ..absint import ClassV, Const, DictV, ObjV
+    gc = ObjV("gc", "GlobalContext")
+    seen = []
+
+    def stop(i, n, a, k, c, o):
+        tab = c.heap.get("GlobalContextMgr.contexts")
+        seen.append(isinstance(tab, DictV) and tab.get(Const("file.a")) == gc)
+        return [(c, Const(None))]
+
+    pol = FlowPolicy(program, may_raise_all=False, cancel=False, summaries={"<gc>.stop": stop})
+    out = run_flow(program, "global_ctx.py::GlobalContextMgr.delete", pol, args={"cls": ClassV("GlobalContextMgr"), "name": Const("file.a")},
+                   heap={"GlobalContextMgr.contexts": DictV([(Const("file.a"), gc), (Const("file.b"), ObjV("other", "GlobalContext"))])})
+    ex = exits(out)
+    left = [sorted(kk.v for kk, _ in c.heap["GlobalContextMgr.contexts"].items) if isinstance(c.heap.get("GlobalContextMgr.contexts"), DictV) else None for k, c, d in ex]
+    seq = (["stop" if x else "stop after del" for x in seen] + ["del" if l == ["file.b"] else f"table {l}" for l in left]) if all(k == "return" for k, c, d in ex) else [d for k, c, d in ex]
     ctx.check(seq == ["stop", "del"], "R09.5", "global_ctx.py::GlobalContextMgr.delete", "delete stops the context before forgetting it",
               msg=f"GlobalContextMgr.delete performs {seq}: the context must be stopped before it is removed from the table", key="delete order", node=f, rel="global_ctx.py")
     load_file_rule(ctx, program, "R09.5")
